@@ -150,6 +150,22 @@ int main()
             return all;
         });
     }
+    // ---- C2: the same drain through the deadline overload get_until(): close at fill level k, drain with get_until, then the queue must be CLOSED
+    for (int k : {1, 3}) {
+        Probe* p = add("drain_until/fill" + std::to_string(k));
+        launch(p, [p, k] {
+            Q3 q; char buf[256]; std::string s;
+            for (int i = 0; i < k; ++i) q.put(100 + i);
+            q.close();
+            std::string vals; bool all = true;
+            for (int i = 0; i < k; ++i) { int v = -1; bool ok = q.get_until(v, steady_clock::now() + milliseconds(300)); all = all && ok; vals += (i ? "," : "") + std::to_string(ok ? v : -1); }
+            std::snprintf(buf, sizeof buf, " drained=%s size_after=%zu open_after_drain=%d closed_after_drain=%d", vals.c_str(), q.size(), int(q.is_open()), int(q.is_closed())); s += buf;
+            double a = now_ms(); int v = -1; bool g = q.get_until(v, steady_clock::now() + milliseconds(300)); double b = now_ms();
+            std::snprintf(buf, sizeof buf, " until300_after_drain=%d until300_ms=%.1f", int(g), b - a); s += buf;
+            p->extra = s;
+            return all;
+        });
+    }
     // ---- time line
     std::stable_sort(actions.begin(), actions.end(), [](const Action& a, const Action& b) { return a.at < b.at; });
     for (auto& a : actions) { while (now_ms() < a.at) std::this_thread::sleep_for(milliseconds(1)); a.f(); }
